@@ -21,6 +21,9 @@ type Finding struct {
 	// How an open finding is recognised. All given conditions must hold.
 	Monitor     string            `json:"monitor,omitempty"`
 	Class       string            `json:"class,omitempty"`
+	Classes     []string          `json:"classes,omitempty"` // any of these classes
+	Family      string            `json:"family,omitempty"`  // workload family that runs the witness
+	Record      string            `json:"record,omitempty"`  // for fixed entries: "fixed: property=<id> <commit> <what failed>"
 	DetailRegex string            `json:"detail_regex,omitempty"`
 	Facts       map[string]any    `json:"facts,omitempty"`     // every listed fact must be present with this value
 	Predicate   string            `json:"predicate,omitempty"` // named predicate implemented in this package
@@ -74,6 +77,15 @@ func (f *File) Match(property string, r *job.Record) *Finding {
 		if fd.Class != "" && fd.Class != r.Class {
 			continue
 		}
+		if len(fd.Classes) > 0 {
+			in := false
+			for _, c := range fd.Classes {
+				in = in || c == r.Class
+			}
+			if !in {
+				continue
+			}
+		}
 		if fd.re != nil && !fd.re.MatchString(r.Detail) {
 			continue
 		}
@@ -95,7 +107,7 @@ func (f *File) Match(property string, r *job.Record) *Finding {
 			}
 		}
 		// An entry with no condition at all would swallow everything: refuse it.
-		if fd.Monitor == "" && fd.Class == "" && fd.re == nil && len(fd.Facts) == 0 && fd.Predicate == "" {
+		if fd.Monitor == "" && fd.Class == "" && len(fd.Classes) == 0 && fd.re == nil && len(fd.Facts) == 0 && fd.Predicate == "" {
 			continue
 		}
 		return fd
